@@ -6,18 +6,21 @@ Open Scope N_scope.
 Section C10_statements.
 Context {D : Type}.
 
-Check (VF.Properties.C10.C10_framing : forall (root : tree D) input d r,
+Goal forall (root : tree D) input d r,
   run root input d (mkFmt None []) = Val r -> r_err r = None ->
   Forall (fun t => t <> []) (unit_texts (r_trace r)) ->
-  r_out r = match unit_texts (r_trace r) with [] => [] | us => intercalate [59] us ++ [10] end).
-Check (VF.Properties.C10.C10_unit_text_structure : forall (hs : list (list byte)) (ds : list rdata) b,
+  r_out r = match unit_texts (r_trace r) with [] => [] | us => intercalate [59] us ++ [10] end.
+Proof. apply VF.Properties.C10.C10_framing. Qed.
+Goal forall (hs : list (list byte)) (ds : list rdata) b,
   Forall (fun x => snd (chunks_of x) = None) ds ->
   let fu := fold_left (fun a x => ru_data (fst a) (snd a) x) ds
               (fold_left (fun a h => ru_header (fst a) (snd a) h) hs (mkFmt None b, runit_new)) in
   buf (fst fu) = b ++ intercalate [58] hs
                    ++ (match hs, ds with _ :: _, _ :: _ => [32] | _, _ => [] end)
                    ++ intercalate [44] (map data_text ds)
-  /\ ru_result (snd fu) = None).
-Check (VF.Properties.C10.C10_event_writes_nothing : forall (p : hprog D) toks f toks' d f' r,
-  run_prog p toks f None = (toks', d, f', r) -> f' = f).
+  /\ ru_result (snd fu) = None.
+Proof. apply VF.Properties.C10.C10_unit_text_structure. Qed.
+Goal forall (p : hprog D) toks f toks' d f' r,
+  run_prog p toks f None = (toks', d, f', r) -> f' = f.
+Proof. apply VF.Properties.C10.C10_event_writes_nothing. Qed.
 End C10_statements.
